@@ -354,25 +354,39 @@ theorem readString_eof {a : BinArchive} {p : Nat} (h : a.size < p + 4) :
   unfold Reader.readString Reader.step BinArchive.readString
   simp [validateCell_err h]
 
-theorem readBytes_slice (a : BinArchive) :
+/-- A byte-range read inside the data returns the slice.  (`a.size < 2^64`: sizes are `usize`;
+the proof covers both forms of the shared `Reader.readBytes` — byte-by-byte and, after the
+`read_bytes` repair in `/repo`, one positional range read with its overflow check.) -/
+theorem readBytes_slice (a : BinArchive) (hsmall : a.size < 2 ^ 64) :
     ∀ (n p : Nat), p + n ≤ a.size → Reader.readBytes a ⟨p⟩ n = .ok (slice a.data p n, ⟨p + n⟩) := by
-  intro n
-  induction n with
-  | zero => intro p _; simp [Reader.readBytes, slice]
-  | succ n ih =>
-    intro p h
-    have hp : p < a.data.length := by unfold size at h; omega
-    unfold Reader.readBytes Reader.readU8 Reader.step BinArchive.readU8 validateAddress
-    have h1 : ¬ p ≥ a.size := by omega
-    simp only [h1, Bool.false_and, Bool.not_false, Bool.true_and, decide_false, Bool.or_self]
-    simp only [Bool.false_eq_true, if_false]
-    rw [ih (p + 1) (by omega)]
-    simp only [Res.ok.injEq, Prod.mk.injEq]
-    refine ⟨?_, by congr 1; omega⟩
-    rw [slice_succ _ _ _ hp]
-    congr 1
-    rw [List.getD_eq_getElem?_getD, List.getElem?_eq_getElem hp]
-    simp
+  first
+  | (intro n
+     induction n with
+     | zero => intro p _; simp [Reader.readBytes, slice]
+     | succ n ih =>
+       intro p h
+       have hp : p < a.data.length := by unfold size at h; omega
+       unfold Reader.readBytes Reader.readU8 Reader.step BinArchive.readU8 validateAddress
+       have h1 : ¬ p ≥ a.size := by omega
+       simp only [h1, Bool.false_and, Bool.not_false, Bool.true_and, decide_false, Bool.or_self]
+       simp only [Bool.false_eq_true, if_false]
+       rw [ih (p + 1) (by omega)]
+       simp only [Res.ok.injEq, Prod.mk.injEq]
+       refine ⟨?_, by congr 1; omega⟩
+       rw [slice_succ _ _ _ hp]
+       congr 1
+       rw [List.getD_eq_getElem?_getD, List.getElem?_eq_getElem hp]
+       simp)
+  | (intro n p h
+     unfold Reader.readBytes
+     by_cases h0 : n = 0
+     · subst h0; simp [slice]
+     · rw [if_neg h0]
+       unfold BinArchive.readBytes validateRange validateAddress
+       have h1 : ¬ p ≥ a.size := by omega
+       have h2 : ¬ p + n ≥ 2 ^ 64 := by omega
+       have h3 : ¬ p + n > a.size := by omega
+       simp [h1, h2, h3])
 
 theorem readU8_at {a : BinArchive} {p : Nat} (h : p < a.size) :
     Reader.readU8 a ⟨p⟩ = .ok ((a.data.getD p 0).toNat, ⟨p + 1⟩) := by
